@@ -258,6 +258,9 @@ func (w *world) classes(v *harness.Verdict, chain, filter string) {
 					used["ok:v1-root-in-chain"] = true
 				}
 			}
+			if m.node >= 0 && m.variant < 0 && len(w.chain) > 1 {
+				used["ok:old-self-signed-in-chain"] = true
+			}
 			used["ok:key:"+e.c.Key.Kind] = true
 		}
 		for _, f := range w.ignoredFeatures() {
